@@ -1970,8 +1970,11 @@ impl<E: Effect> Executor<E> {
         let first = &values[0];
         let all_equal = values.iter().all(|value| self.values_equal(first, value));
 
+        // The result is a verdict, inspected only for truthiness by the pattern code that follows.
+        // It must not be the compared value itself: two nil values are equal, and yielding nil
+        // for them would make a pinned match or a repeated binder on nil fail.
         let result = if all_equal {
-            first.clone()
+            Value::ok()
         } else {
             Value::nil()
         };
